@@ -91,6 +91,14 @@ func marshal(val cty.Value, ty cty.Type, path cty.Path, enc *msgpack.Encoder) er
 					err = enc.EncodeInt(iv)
 				} else if fv, acc := bf.Float64(); acc == big.Exact && !bf.IsInt() {
 					err = enc.EncodeFloat64(fv)
+				} else if bf.IsInt() {
+					// A whole number too large for int64: write all of its
+					// digits. (The shortest decimal form that Text would
+					// choose identifies the number only among numbers of
+					// the same precision, and the decoder parses with a
+					// different precision.)
+					bi, _ := bf.Int(nil)
+					err = enc.EncodeString(bi.String())
 				} else {
 					err = enc.EncodeString(bf.Text('f', -1))
 				}
